@@ -2961,7 +2961,11 @@ def get_expr_as_table(expr: ColExpr):
 
     cols: list[Col] = []
 
-    def get_cols(nd: ColExpr):
+    def get_cols(nd: ColExpr | Order):
+        if isinstance(nd, Order):
+            # (the children of an `Order` are the children of its expression)
+            get_cols(nd.order_by)
+            return
         if isinstance(nd, Col):
             cols.append(nd)
         if not isinstance(nd, EvalAligned):
@@ -2975,6 +2979,11 @@ def get_expr_as_table(expr: ColExpr):
     # We need one column whose AST is an ancestor of all other columns' ASTs.
     # The following could be done in linear time.
     roots = [col._ast for col in cols] + [ea.with_ for ea in aligned_nodes]
+    if len(roots) == 0:
+        raise ValueError(
+            "cannot export a column expression that does not contain any column\n"
+            "hint: There is no table the expression could be evaluated on."
+        )
     subtrees = [set(r.iter_subtree_postorder()) for r in roots]
     ancestor_index = None
     for i, tree in enumerate(subtrees):
